@@ -72,6 +72,10 @@ use crate::dp::{rand_bigint::UniformBigUint, Rational};
 ///
 /// [CKS20]: https://arxiv.org/pdf/2004.00010.pdf
 fn sample_bernoulli<R: Rng + ?Sized>(gamma: &Ratio<BigUint>, rng: &mut R) -> bool {
+    #[cfg(feature = "verif-hooks")]
+    if let Some(outcome) = verif_hooks::intercept_bool(verif_hooks::Layer::Bernoulli, gamma) {
+        return outcome;
+    }
     let d = gamma.denom();
     assert!(!d.is_zero());
     assert!(gamma <= &Ratio::<BigUint>::one());
@@ -94,6 +98,10 @@ fn sample_bernoulli<R: Rng + ?Sized>(gamma: &Ratio<BigUint>, rng: &mut R) -> boo
 ///
 /// [CKS20]: https://arxiv.org/pdf/2004.00010.pdf
 fn sample_bernoulli_exp1<R: Rng + ?Sized>(gamma: &Ratio<BigUint>, rng: &mut R) -> bool {
+    #[cfg(feature = "verif-hooks")]
+    if let Some(outcome) = verif_hooks::intercept_bool(verif_hooks::Layer::BernoulliExp1, gamma) {
+        return outcome;
+    }
     assert!(!gamma.denom().is_zero());
     assert!(gamma <= &Ratio::<BigUint>::one());
 
@@ -115,6 +123,10 @@ fn sample_bernoulli_exp1<R: Rng + ?Sized>(gamma: &Ratio<BigUint>, rng: &mut R) -
 ///
 /// [CKS20]: https://arxiv.org/pdf/2004.00010.pdf
 fn sample_bernoulli_exp<R: Rng + ?Sized>(gamma: &Ratio<BigUint>, rng: &mut R) -> bool {
+    #[cfg(feature = "verif-hooks")]
+    if let Some(outcome) = verif_hooks::intercept_bool(verif_hooks::Layer::BernoulliExp, gamma) {
+        return outcome;
+    }
     assert!(!gamma.denom().is_zero());
     for _ in range_inclusive(BigUint::one(), gamma.floor().to_integer()) {
         if !sample_bernoulli_exp1(&Ratio::<BigUint>::one(), rng) {
@@ -132,6 +144,11 @@ fn sample_bernoulli_exp<R: Rng + ?Sized>(gamma: &Ratio<BigUint>, rng: &mut R) ->
 ///
 /// [CKS20]: https://arxiv.org/pdf/2004.00010.pdf
 fn sample_geometric_exp<R: Rng + ?Sized>(gamma: &Ratio<BigUint>, rng: &mut R) -> BigUint {
+    #[cfg(feature = "verif-hooks")]
+    if let Some(outcome) = verif_hooks::intercept_unsigned(verif_hooks::Layer::GeometricExp, gamma)
+    {
+        return outcome;
+    }
     let (s, t) = (gamma.numer(), gamma.denom());
     assert!(!t.is_zero());
     if gamma.is_zero() {
@@ -168,6 +185,11 @@ fn sample_geometric_exp<R: Rng + ?Sized>(gamma: &Ratio<BigUint>, rng: &mut R) ->
 ///
 /// [CKS20]: https://arxiv.org/pdf/2004.00010.pdf
 fn sample_discrete_laplace<R: Rng + ?Sized>(scale: &Ratio<BigUint>, rng: &mut R) -> BigInt {
+    #[cfg(feature = "verif-hooks")]
+    if let Some(outcome) = verif_hooks::intercept_signed(verif_hooks::Layer::DiscreteLaplace, scale)
+    {
+        return outcome;
+    }
     let (s, t) = (scale.numer(), scale.denom());
     assert!(!t.is_zero());
     if s.is_zero() {
@@ -193,6 +215,12 @@ fn sample_discrete_laplace<R: Rng + ?Sized>(scale: &Ratio<BigUint>, rng: &mut R)
 ///
 /// [CKS20]: https://arxiv.org/pdf/2004.00010.pdf
 fn sample_discrete_gaussian<R: Rng + ?Sized>(sigma: &Ratio<BigUint>, rng: &mut R) -> BigInt {
+    #[cfg(feature = "verif-hooks")]
+    if let Some(outcome) =
+        verif_hooks::intercept_signed(verif_hooks::Layer::DiscreteGaussian, sigma)
+    {
+        return outcome;
+    }
     assert!(!sigma.denom().is_zero());
     if sigma.is_zero() {
         return 0.into();
@@ -373,6 +401,9 @@ impl PureDpDiscreteLaplace {
         DiscreteLaplace::new(Rational(sensitivity.0 / &self.budget.epsilon.0))
     }
 }
+
+#[cfg(feature = "verif-hooks")]
+pub mod verif_hooks;
 
 #[cfg(test)]
 mod tests {
